@@ -168,6 +168,9 @@ BoxAns(n) == IF WhollyOutside \/ Walled(n) THEN "F"
              ELSE IF WhollyInside /\ Unoccluded(n) THEN "T" ELSE "free"
 
 Answer(n) == IF Tpl.tk = "pt" THEN PointAns(TgtL, n) ELSE BoxAns(n)
+\* a corner of the target box lies exactly on a boundary plane of the angular windows: a touching
+\* configuration (the implementation may then refuse to answer: `assert h_size > 0`); don't-care
+EdgeTouch == Tpl.tk = "box" /\ \E c \in TC : AzClass(VP.h, c) = "edge" \/ AltClass(VP.v, c) = "edge"
 
 \* ---- visibleRegion.containsPoint (a mesh approximation of the view volume, ignoring occlusion):
 \* demanded only with a 25% margin on the curved faces (sphere, altitude cone)
@@ -289,7 +292,7 @@ Emit == (pc = "case") => PrintT(ToJson(
           [c |-> <<ti, qi, ri, vi>>, k |-> k, ans |-> ans, impl |-> impl, dev |-> DevKey(k),
            vr |-> IF Tpl.tk = "pt" /\ k = 0 THEN VRAns(TgtL) ELSE "free",
            vri |-> IF Tpl.tk = "pt" /\ k = 0 THEN VRAsImpl(TgtL) ELSE "free",
-           den |-> Den,
+           den |-> Den, edge |-> EdgeTouch,
            tgt |-> IF k = 0 THEN BodyPose(g.t, Tpl.th) ELSE [p |-> <<>>, e |-> <<>>, h |-> <<>>],
            occ |-> IF k = 0 THEN [j \in 1..NOcc |-> BodyPose(g.o[j], Tpl.occ[j].h)] ELSE <<>>,
            cam |-> CamW]))
